@@ -12,6 +12,9 @@ printed in docs/sha256tree.md.
 """
 import re
 from lib import mir
+from lib.mir import strip, show
+from lib.flagregion import flag_tests
+from rules.c07 import forward_reach
 
 PROGRAM_FILE = "tools/src/bin/sha256tree-benching.rs"
 
@@ -134,6 +137,23 @@ class Interp:
         raise ValueError(f"operator {o} is not part of the benchmark program's cost rules")
 
 
+def retype(f, e, special):
+    """replace local names by roles: the cost accumulator, the per-byte rate, the visited node; other locals by their type"""
+    if not isinstance(e, tuple):
+        return e
+    if e and e[0] == "named":
+        return retype(f, e[3], special)
+    if e and e[0] == "var":
+        l = e[2]
+        if l in special:
+            return ("var", special[l], l)
+        return ("var", "<" + f.local_ty(l) + ">", l)
+    # the node being visited: the SExp payload of the item popped from the work list
+    if e and e[0] == "field" and show(e).endswith(" as SExp).0") and "::pop(" in show(e):
+        return ("var", "NODE", -1)
+    return tuple(retype(f, x, special) if isinstance(x, tuple) else x for x in e)
+
+
 def run(ctx):
     ck = ctx.check
     ck.level = "proof"
@@ -161,6 +181,70 @@ def run(ctx):
                     SHA256_COST_PER_ARG=cv("NEW_SHA256_COST_PER_ARG"), SHA256_COST_PER_BYTE=cv("NEW_SHA256_COST_PER_BYTE"),
                     TREE_PER_BYTE=cv("NEW_SHA256TREE_COST_PER_BYTE")),
     }
+    # ---- native formula, derived from the MIR of tree_hash_costed (not assumed)
+    ck.rule("R23n", "the native cost is BASE + sum_atoms (len+1)*PER_BYTE + sum_pairs PAIR + 32*MALLOC: one cost update per node kind, in the work loop only")
+    th = cr.fn("treehash::tree_hash_costed")
+    ck.analysed(th)
+    cost_l = th.local_by_name("cost")
+    if len(cost_l) != 1:
+        raise mir.AnchorMissing("tree_hash_costed: local `cost` not found")
+    loops = th.loops()
+    cpb = th.local_by_name("cost_per_byte")
+    special = {cost_l[0]: "COST"}
+    # the per-byte rate: the only u64 local assigned from the two SHA256TREE per-byte constants
+    for l in range(1, len(th.locals)):
+        vs = sorted(show(th.expr_rvalue(th.def_rvalue(d_), deep=False)) for d_ in th.defs(l) if d_[1] != "T")
+        if vs == ["NEW_SHA256TREE_COST_PER_BYTE", "SHA256TREE_COST_PER_BYTE"]:
+            special[l] = "RATE"
+            cpb = [l]
+    ups = {"init": [], "Buffer": [], "U32": [], "Pair": [], "after": [], "other": []}
+    for (b, i) in th.defs(cost_l[0]):
+        if i == "T":
+            ups["other"].append(("call result", th.where(b)))
+            continue
+        e = retype(th, strip(th.expr_rvalue(th.def_rvalue((b, i)), deep=True)), special)
+        nest = [h for h, blks in loops.items() if b in blks]
+        arm = None
+        for x in th.dominators(b):
+            dv = th.discr_variants(x)
+            if dv and th.discr_enum(x) and th.discr_enum(x).endswith("NodeVisitor"):
+                for tgt, v in th.succ(x):
+                    if v in dv and (tgt == b or th.dominates(tgt, b)) and len(th.pred(tgt)) == 1:
+                        arm = dv[v]
+        txt = show(e)
+        if not nest:
+            before = any(th.dominates(b, h) for h in loops)
+            ups["init" if before else "after"].append((txt, th.where(b)))
+        elif len(nest) > 1 or arm is None:
+            ups["other"].append((txt + f" (loop nesting {len(nest)}, arm {arm})", th.where(b)))
+        else:
+            ups[arm].append((txt, th.where(b)))
+    want = {"init": ["SHA256TREE_BASE_COST"],
+            "Buffer": ["(COST Add (((::len(&*(Allocator::node(&<&mut allocator::Allocator>, NODE) as Buffer).0) Add 1) as u64) Mul RATE))"],
+            "U32": ["(COST Add (((Allocator::atom_len(&<&mut allocator::Allocator>, NODE) Add 1) as u64) Mul RATE))"],
+            "Pair": ["(COST Add SHA256TREE_PAIR_COST)"],
+            "after": ["(COST Add (MALLOC_COST_PER_BYTE Mul 32))"], "other": []}
+    for k in want:
+        ck.ob("R23n", f"treehash::tree_hash_costed|cost updates: {k}", [t for t, _ in ups[k]] == want[k],
+              {"init": "the cost starts at SHA256TREE_BASE_COST", "Buffer": "a heap atom is charged (len+1)*cost_per_byte, once",
+               "U32": "an inline atom is charged (atom_len+1)*cost_per_byte, once", "Pair": "a pair is charged SHA256TREE_PAIR_COST, once",
+               "after": "the 32-byte result is charged 32*MALLOC_COST_PER_BYTE", "other": "no other cost update exists (none in a nested loop, none outside a node arm)"}[k],
+              site=ups[k][0][1] if ups[k] else th.where(0), detail=[t for t, _ in ups[k]])
+    ck.ob("R23n", "treehash::tree_hash_costed|one work loop", len(loops) == 1, "tree_hash_costed has exactly one loop (the work list)", site=th.where(0), detail=len(loops))
+    vals = sorted(show(th.expr_rvalue(th.def_rvalue(d_), deep=False)) for l in cpb for d_ in th.defs(l) if d_[1] != "T")
+    tests = [t for t in flag_tests(th)]
+    okc = vals == ["NEW_SHA256TREE_COST_PER_BYTE", "SHA256TREE_COST_PER_BYTE"] and len(tests) == 1 and tests[0]["flag"] == "NEW_COST_MODEL"
+    if okc:
+        t = tests[0]
+        setr = forward_reach(th, t["set_edge"]) - forward_reach(th, t["clear_edge"])
+        for l in cpb:
+            for d_ in th.defs(l):
+                if d_[1] != "T":
+                    v = show(th.expr_rvalue(th.def_rvalue(d_), deep=False))
+                    okc = okc and ((d_[0] in setr) == v.startswith("NEW_"))
+    ck.ob("R23n", "treehash::tree_hash_costed|cost_per_byte", okc,
+          "cost_per_byte is NEW_SHA256TREE_COST_PER_BYTE under NEW_COST_MODEL and SHA256TREE_COST_PER_BYTE otherwise", site=th.where(0), detail=vals)
+
     ck.extra["trusted_base"] = ["the CLVM cost-rule interpreter in rules/c23.py (which constant is charged where; pinned by C02/C10)",
                                 "constant extraction by the mirfacts driver", "the program bytes embedded in " + PROGRAM_FILE]
     doc = ctx.read("docs/sha256tree.md")
